@@ -63,4 +63,6 @@ VARIANTS += [
 VARIANTS += [
     M('C07', 'minimum-over-finite-values-only', E(PC, "        else:\n            m = self.df[colname].min()\n", "        else:\n            col = self.df[colname]\n            m = col[np.isfinite(col)].min() if str(col.dtype).startswith('float') else col.min()\n"),
       rule='C07-OBSERVED', key='calc_min'),
+    M('C07', 'distinct-values-filtered-by-truth', E(DR, "        result = self.execute_all(sql)\n        return [x[0] for x in result]", "        result = self.execute_all(sql)\n        return [x[0] for x in result if x[0]]"),
+      rule='C07-DISTINCT', key='get_database_unique_values'),
 ]
